@@ -199,7 +199,8 @@ class Enum(BaseType, IntEnum, metaclass=EnumMetaType):
         return not self.__eq__(value)
 
     def __hash__(self) -> int:
-        return hash((self.__class__, self.name, self.value))
+        # Members that compare equal (aliases, a parsed value and the member it names) hash alike
+        return hash((self.__class__, self.value))
 
     @classmethod
     def _missing_(cls, value: int) -> Self:
